@@ -77,6 +77,27 @@ def typing_obligations(rep: Report):
                        "pegir-fixpoint", function=f"peg_parser/parser.py:XonshParser.{name}")
 
 
+def make_arguments_call_sites(rep: Report):
+    """precondition of Parser.make_arguments (E1): every call passes either no `/`-parameters without default (None) or no `/`-parameters
+    with default ([]) -- then the positional defaults it collects never outnumber the positional parameters"""
+    import ast as _ast
+    rel = "peg_parser/parser.py"
+    try:
+        tree = _ast.parse(open(os.path.join(REPO, rel), encoding="utf-8").read())
+    except (OSError, SyntaxError) as e:
+        rep.undecided("C04.callsite.make_arguments", "pre", f"parse {rel}", "frames", repr(e))
+        return
+    calls = [n for n in _ast.walk(tree) if isinstance(n, _ast.Call) and isinstance(n.func, _ast.Attribute) and n.func.attr == "make_arguments"]
+    bad = [f"line {n.lineno}: `{_ast.unparse(n)[:70]}`" for n in calls
+           if not (len(n.args) == 5 and not n.keywords and ((isinstance(n.args[0], _ast.Constant) and n.args[0].value is None)
+                                                            or (isinstance(n.args[1], _ast.List) and not n.args[1].elts)))]
+    desc = f"all {len(calls)} calls of make_arguments in the generated parser pass None for the plain `/`-parameters or [] for those with defaults (precondition of its contract)"
+    if bad or not calls:
+        rep.fail("C04.callsite.make_arguments", "pre", desc, "frames", "; ".join(bad[:3]) or "no call found", witness=bad[:5], function=f"{rel}:XonshParser")
+    else:
+        rep.ok("C04.callsite.make_arguments", "pre", desc, "frames", function=f"{rel}:XonshParser")
+
+
 def standin(rep: Report):
     t0 = time.time()
     srcs = pool.PY_STMTS + pool.XSH_STMTS
@@ -141,4 +162,5 @@ def run(rep: Report):
                "'rejects for semantic reasons only when the written-out Python is rejected too' is covered only by the stand-in")
     e1common.file_into(rep, "C04", rep.tier)
     typing_obligations(rep)
+    make_arguments_call_sites(rep)
     standin(rep)
